@@ -4,6 +4,10 @@ Rule (per program = set of crates linked into one executable): at every site tha
 (an await of tokio's RwLock/Mutex acquisition coroutine, a try_/blocking_ call) or that calls/awaits a
 body whose summary acquires one, for every guard that may be live at that site:
   * acquired class == held class with a write on either side         -> C20.reacquire (self-deadlock)
+  * acquired class == held class, read under read                     -> C20.read-reentry: tokio's RwLock is
+    fair (a reader queues behind a waiting writer), so a task that re-reads a lock it already read-holds
+    deadlocks as soon as another task of the program asks for the write side in between. Reported when
+    some live body of the program write-acquires the class and the site is not serialised by the gate.
   * rank(acquired) < rank(held) (ranks read from LOCK_ORDER_* consts) -> C20.inversion, unless excused by
     the property's escape clause: the gate lock is certainly held at the site AND every site of the same
     program that nests the two classes in the documented order is under the gate as well.
@@ -29,6 +33,7 @@ def run(prog, tier, extra_progs=None):
     res = Result("C20", "proof")
     R_INV = res.rule("C20.inversion", "held guard vs. acquired class: rank(acquired) > rank(held), or gate-excused", floor=340)
     R_RE = res.rule("C20.reacquire", "no lock class is re-acquired (with a write on either side) while a guard of it is live", floor=0)
+    R_RR = res.rule("C20.read-reentry", "no lock class that the program also write-acquires is read-acquired again under a live read guard of it (fair RwLock: reader queues behind a waiting writer), unless under the gate", floor=0)
     R_FIRST = res.rule("C20.gate-first", "the SAITO gate is acquired with no guard held", floor=33)
     R_SITES = res.rule("C20.acquire-sites", "lock acquire sites found and classified", floor=190)
 
@@ -80,6 +85,11 @@ def run(prog, tier, extra_progs=None):
                 stack.extend(ungated_natural.get(c, ()))
             return False
         stats = {"bodies_live": len(lv), "nestings": len(nestings), "inversions_excused_by_gate": 0, "direct_acquire_sites": 0}
+        writers = {}
+        for p in sorted(lv):
+            for (bb, cls, mode, api) in la.direct.get(p, ()):
+                if mode == "w":
+                    writers.setdefault(cls, []).append(p)
         for p in lv:
             b = la.cg.bodies.get(p)
             if b is None:
@@ -122,6 +132,21 @@ def run(prog, tier, extra_progs=None):
                         "%s re-acquires %s(%s) while holding a %s guard of it (`%s`): self-deadlock"
                         % (short(n["body"]), x, n["acq_mode"], n["held_mode"], n["held_name"]), n["loc"],
                         {"program": name, "via": path, "how": n["how"]}))
+                else:
+                    res.instance(R_RR)
+                    wsites = writers.get(x, [])
+                    if wsites and GATE not in n["under"]:
+                        key = "C20.read-reentry|%s|%s|%s" % (n["body"], x, n["callee"] or "direct")
+                        path = la.path_to_acquire(n["callee"], x) if n["callee"] else None
+                        findings.setdefault(key, Finding(R_RR, key,
+                            "%s read-acquires %s again %s while its read guard `%s` is live; %s write-acquires %s (e.g. %s), "
+                            "and tokio's fair RwLock queues the second read behind that writer, which waits for the first guard: deadlock"
+                            % (short(n["body"]), x, ("via " + short(n["callee"])) if n["callee"] else "directly", n["held_name"],
+                               name, x, short(wsites[0])), n["loc"],
+                            {"program": name, "via": path, "how": n["how"], "writers": [short(w) for w in wsites[:5]]}))
+                    else:
+                        res.sample({"program": name, "site": n["loc"], "body": short(n["body"]), "holds": x, "acquires": x,
+                                    "verdict": "read re-entry %s" % ("serialised by the gate" if GATE in n["under"] else "on a class nobody write-acquires")})
                 continue
             if rx is None or ry is None:
                 continue
